@@ -27,7 +27,7 @@ REVIEWED = [
      "bounded", "forwarding impl for `&mut dyn SharingTracker`: depth = number of nested &mut dyn wrappers built by the caller, a constant of the code"),
     (r"^<bit_encoding::bititer::BitIter<I> as std::iter::Iterator>::next$",
      "bounded", "self call after refilling the cached byte: the refill sets read_bits so that the recursive call takes the other branch (depth <= 1)"),
-    (r"ContextInner>>::bind \| .*ContextInner>>::unify \| .*ContextInner>>::unify::\{closure#0\}$",
+    (r"types::context::<impl types::union_bound::WithGhostToken<types::context::\w+>>::bind \| types::context::<impl types::union_bound::WithGhostToken<types::context::\w+>>::unify( \| types::context::<impl types::union_bound::WithGhostToken<types::context::\w+>>::unify::\{closure#0\})?$",
      "input-depth", "bind <-> unify recursion, depth = depth of the types being unified (input controlled)"),
     (r"Populator<.*?> as node::convert::Converter<.*>>::convert_disconnect.*node::Node::<N>::convert",
      "input-depth-human", "Node::convert re-entered from Populator::convert_disconnect: depth = nesting of disconnect holes in a human-readable program; Populator is only built by Forest::to_witness_node, never on a binary decode path"),
@@ -51,7 +51,8 @@ def _without_helpers(F, comp):
             continue     # recursive on its own
         if any(re.search(r"\b%s\b" % re.escape(g.name), pat.replace("\\", "")) for pat, _k, _r in REVIEWED):
             continue     # named in the reviewed table: part of the reviewed recursion itself
-        callers = [q for q in comp if q != p and q in F.fns and any(cs.callee == p for cs in F.fns[q].calls())]
+        cg = F.callgraph_rec()     # a helper handed on as a function value (a closure turned into a method) is referenced, not called
+        callers = [q for q in comp if q != p and q in F.fns and (any(cs.callee == p for cs in F.fns[q].calls()) or p in cg.get(q, ()))]
         if callers and all(F.fns[q].file == g.file for q in callers):
             core.discard(p)
     return core
